@@ -135,3 +135,46 @@ def int_bounds(g, q: Rat):
             lo = -c if lo is None else max(lo, -c)
             hi = -c if hi is None else min(hi, -c)
     return lo, hi
+
+
+def position_atom(idx: Rat):
+    """idx = s * atom + rest with s = +1 / -1 and atom the single position-valued call of the expression."""
+    cands = [a for a in idx.atoms() if a.kind == "fn" and (a.name in ("argmax", "argmin", "int", "floor") or a.name.endswith("searchsorted"))]
+    if len(cands) != 1:
+        return None
+    lin = linear_in(idx, cands[0])
+    if lin is None or lin[0] not in (1, -1):
+        return None
+    return cands[0], int(lin[0]), lin[1]
+
+
+def scanned_positions(idx: Rat, length_of: Callable[[Rat], Rat]):
+    """For an index built from an argmax / argmin over a (possibly reversed) view of a vector:
+    (vector, first scanned position, last scanned position, maps_back, function, reversed) where maps_back says that
+    the index is the position *in the vector* of the selected element (view start + position, or view start -
+    position for a reversed view).  numpy's argmax / argmin return the first optimum of what they scan: the lowest
+    position for a forward view, the highest for a reversed one."""
+    pa = position_atom(idx)
+    if pa is None:
+        return None
+    a, s, rest = pa
+    if a.name not in ("argmax", "argmin"):
+        return None
+    X = a.args[0]
+    xa = single_atom(X)
+    if xa is not None and xa.kind == "fn" and xa.name == "slice":
+        base, lo, hi = xa.args
+        Lb = length_of(base)
+        lo_v = C(0) if lo.symbols() == {"None"} else lo
+        if hi.symbols() == {"None"}:
+            hi_v = Lb
+        else:
+            hc = hi.is_const()
+            hi_v = Lb.add(hi) if (hc is not None and hc < 0) else hi
+        return base, lo_v, hi_v.sub(C(1)), (s > 0 and rest.equals(lo_v)), a.name, False
+    if xa is not None and xa.kind == "fn" and xa.name == "rslice":
+        from .gvn import rslice_bounds
+        base = xa.args[0]
+        first, stop = rslice_bounds(xa, length_of(base))
+        return base, stop.add(C(1)), first, (s < 0 and rest.equals(first)), a.name, True
+    return X, C(0), length_of(X).sub(C(1)), (s > 0 and rest.is_zero()), a.name, False
